@@ -201,31 +201,67 @@ Qed.
 Definition su_quiet_state (s : su) : Prop := su_ls s = LS_AVAILABLE.
 
 (* accepted bit: delivered once, expectation toggles, acknowledged *)
-Theorem su_fc3_new : forall c s bc fcb msg uds udl, su_ls s = LS_AVAILABLE -> fcb = su_efcb s -> 0 < udl ->
-  su_handle c s 3 bc fcb true msg uds udl =
+Theorem su_fc3_new : forall fi_ c s bc fcb msg uds udl, su_ls s = LS_AVAILABLE -> fcb = su_efcb s -> 0 < udl ->
+  su_handle fi_ c s 3 bc fcb true msg uds udl =
   (su_with_efcb s (negb (su_efcb s)),
    [OInd bc (user_data msg uds udl); OTx (su_ack c (su_with_efcb s (negb (su_efcb s))) (q_nonempty (su_q1 s)))]).
 Proof.
-  intros c s bc fcb msg uds udl Hs -> Hl. unfold su_handle, su_set_state. rewrite Hs. change (LS_AVAILABLE =? LS_AVAILABLE) with true. cbv iota beta.
+  intros fi_ c s bc fcb msg uds udl Hs -> Hl. unfold su_handle, su_set_state. rewrite Hs. change (LS_AVAILABLE =? LS_AVAILABLE) with true. cbv iota beta.
   change (3 =? 9) with false. change ((3 =? 0) || (3 =? 7)) with false. change (3 =? 11) with false. change (3 =? 10) with false. change (3 =? 3) with true. cbv iota.
   rewrite eqb_reflx. cbn [andb negb]. assert (E : udl >? 0 = true) by (apply Z.gtb_lt; lia). rewrite E. reflexivity.
 Qed.
 
 (* repeated bit: NOT delivered, expectation unchanged, the confirmation is repeated *)
-Theorem su_fc3_dup : forall c s bc fcb msg uds udl, su_ls s = LS_AVAILABLE -> fcb = negb (su_efcb s) ->
-  su_handle c s 3 bc fcb true msg uds udl = (s, [OTx (su_ack c s (q_nonempty (su_q1 s)))]).
+Theorem su_fc3_dup : forall fi_ c s bc fcb msg uds udl, su_ls s = LS_AVAILABLE -> fcb = negb (su_efcb s) ->
+  su_handle fi_ c s 3 bc fcb true msg uds udl = (s, [OTx (su_ack c s (q_nonempty (su_q1 s)))]).
 Proof.
-  intros c s bc fcb msg uds udl Hs ->. unfold su_handle, su_set_state. rewrite Hs. change (LS_AVAILABLE =? LS_AVAILABLE) with true. cbv iota beta.
+  intros fi_ c s bc fcb msg uds udl Hs ->. unfold su_handle, su_set_state. rewrite Hs. change (LS_AVAILABLE =? LS_AVAILABLE) with true. cbv iota beta.
   change (3 =? 9) with false. change ((3 =? 0) || (3 =? 7)) with false. change (3 =? 11) with false. change (3 =? 10) with false. change (3 =? 3) with true. cbv iota.
   assert (E : eqb (negb (su_efcb s)) (su_efcb s) = false) by (destruct (su_efcb s); reflexivity). rewrite E. cbn [andb negb app]. reflexivity.
 Qed.
 
 (* reset: the expectation restarts at 1 *)
-Theorem su_reset_expect : forall c s fc bc msg uds udl, fc = 0 \/ fc = 7 ->
-  su_efcb (fst (su_handle c s fc bc false false msg uds udl)) = true.
+Theorem su_reset_expect : forall fi_ c s fc bc msg uds udl, fc = 0 \/ fc = 7 ->
+  su_efcb (fst (su_handle fi_ c s fc bc false false msg uds udl)) = true.
 Proof.
-  intros c s fc bc msg uds udl [-> | ->]; unfold su_handle, su_set_state;
+  intros fi_ c s fc bc msg uds udl [-> | ->]; unfold su_handle, su_set_state;
     destruct (su_ls s =? LS_AVAILABLE); cbv iota beta; reflexivity.
+Qed.
+
+(* every frame sent with FCV = 1 takes part in the alternation, also one whose service this station does not implement (the link
+   test of an unbalanced primary): the expectation toggles and the negative answer is given (variant fi).  Otherwise the primary,
+   which toggles for every such frame, and this station are out of step: the next new request is taken for a repetition. *)
+Definition su_served (fc : Z) : bool := (fc =? 9) || (fc =? 0) || (fc =? 7) || (fc =? 11) || (fc =? 10) || (fc =? 3) || (fc =? 4).
+Theorem su_unserved_takes_fcb : forall c s fc bc fcb msg uds udl, su_served fc = false -> fcb = su_efcb s ->
+  let '(s', o) := su_handle true c s fc bc fcb true msg uds udl in
+  su_efcb s' = negb (su_efcb s) /\ In (OTx (enc_fixed (alen c) 15 (su_addr s) false false false false)) o /\
+  su_q1 s' = su_q1 s /\ su_q2 s' = su_q2 s /\ su_udsz s' = su_udsz s /\ su_udbuf s' = su_udbuf s.
+Proof.
+  intros c s fc bc fcb msg uds udl Hf ->. unfold su_served in Hf.
+  repeat match type of Hf with (_ || _) = false => apply orb_false_elim in Hf; destruct Hf as [Hf ?] end.
+  unfold su_handle, su_set_state.
+  repeat match goal with H : (fc =? _) = false |- _ => rewrite H; clear H end.
+  destruct (su_ls s =? LS_AVAILABLE); cbn [orb andb su_with_ls su_efcb]; rewrite eqb_reflx; cbv iota beta;
+    cbn [su_with_ls su_with_efcb su_efcb su_q1 su_q2 su_udsz su_udbuf su_addr snd fst];
+    repeat split; try reflexivity; rewrite ?in_app_iff; cbn [In]; auto.
+Qed.
+Theorem su_unserved_repeat : forall fi_ c s fc bc fcb msg uds udl, su_served fc = false -> fcb = negb (su_efcb s) ->
+  su_efcb (fst (su_handle fi_ c s fc bc fcb true msg uds udl)) = su_efcb s.
+Proof.
+  intros fi_ c s fc bc fcb msg uds udl Hf ->. unfold su_served in Hf.
+  repeat match type of Hf with (_ || _) = false => apply orb_false_elim in Hf; destruct Hf as [Hf ?] end.
+  unfold su_handle, su_set_state.
+  repeat match goal with H : (fc =? _) = false |- _ => rewrite H; clear H end.
+  assert (E : eqb (negb (su_efcb s)) (su_efcb s) = false) by (destruct (su_efcb s); reflexivity).
+  destruct (su_ls s =? LS_AVAILABLE); cbn [orb andb su_with_ls su_efcb fst]; rewrite E, andb_false_r; reflexivity.
+Qed.
+(* original code: the link test of the primary (FCV = 1, the expected bit) leaves the expectation where it was; the primary has toggled *)
+Theorem su_unserved_takes_fcb_refuted : exists c s, su_efcb s = true /\
+  su_efcb (fst (su_handle false c s 2 false true true [] 0 0)) = true.
+Proof.
+  exists {| alen := 1; single_ack := false; t_ack := 200; t_rep := 1000; t_ls := 5000 |},
+         (su_init {| fa := true; fb := true; fc_ := true; fd := true; fe := true; ff := true; fg := true; fh := true; fi := false |} 1 500).
+  split; reflexivity.
 Qed.
 
 (* request with a repeated bit: the previous response is sent again, nothing is taken from the queues *)
@@ -354,37 +390,68 @@ Theorem pb_send_new : forall v c now dir p d rest,
   let '(p', q', o) := pb_run v c now dir p (d :: rest) in
   o = fcv_frame c 3 (pb_other p) dir (pb_nfcb p) d /\ q' = rest /\
   pb_ps p' = PLL_SEND_CONFIRM /\ pb_nfcb p' = negb (pb_nfcb p) /\ pb_last p' = d /\ pb_test p' = false /\
-  pb_lastsend p' = now /\ pb_origsend p' = now /\ pb_other p' = pb_other p.
+  pb_lastsend p' = now /\ pb_origsend p' = now /\ pb_other p' = pb_other p /\ (fg v = true -> pb_tout p' = false).
 Proof.
   intros v c now dir p d rest Hs Ht Hi. unfold pb_run. rewrite Hs, Ht. unfold PLL_AVAILABLE, PLL_IDLE, PLL_REQ_STATUS, PLL_RESET, PLL_SEND_CONFIRM.
-  settle. repeat split; reflexivity.
+  settle. cbn [pb_with_tout pb_upd pb_ps pb_nfcb pb_last pb_test pb_lastsend pb_origsend pb_other pb_tout pb_with_lastrx].
+  repeat split; try reflexivity. intros ->. reflexivity.
 Qed.
 
 (* acknowledgement timeout inside the repeat window: the SAME frame (same bit, same octets) is sent again *)
+(* what decides between "repeat the user data" and "repeat the test frame": the frame that is outstanding (fg) /
+   the request flag, which the application may set at any time (original) *)
+Definition pb_out_is_test (v : variant) (p : pb) : bool := if fg v then pb_tout p else pb_test p.
+
 Theorem pb_repeat : forall v c now dir p,
-  pb_ps p = PLL_SEND_CONFIRM -> pb_test p = false -> pb_lastsend p <= now ->
+  pb_ps p = PLL_SEND_CONFIRM -> pb_out_is_test v p = false -> pb_lastsend p <= now ->
   pb_lastsend p + t_ack c < now -> now <= pb_origsend p + t_rep c ->
   let '(p', q', o) := pb_run v c now dir p [] in
   o = fcv_frame c 3 (pb_other p) dir (negb (pb_nfcb p)) (pb_last p) /\
-  pb_ps p' = PLL_SEND_CONFIRM /\ pb_nfcb p' = pb_nfcb p /\ pb_last p' = pb_last p /\ pb_test p' = false /\
-  pb_lastsend p' = now /\ pb_origsend p' = pb_origsend p /\ pb_other p' = pb_other p.
+  pb_ps p' = PLL_SEND_CONFIRM /\ pb_nfcb p' = pb_nfcb p /\ pb_last p' = pb_last p /\ pb_test p' = pb_test p /\
+  pb_lastsend p' = now /\ pb_origsend p' = pb_origsend p /\ pb_other p' = pb_other p /\ pb_tout p' = pb_tout p.
 Proof.
-  intros v c now dir p Hs Ht H1 H2 H3. unfold pb_run. rewrite Hs, Ht, (clamp_le _ _ H1). unfold PLL_AVAILABLE, PLL_IDLE, PLL_REQ_STATUS, PLL_RESET, PLL_SEND_CONFIRM.
+  intros v c now dir p Hs Ht H1 H2 H3. unfold pb_run. unfold pb_out_is_test in Ht. rewrite Hs, Ht, (clamp_le _ _ H1).
+  unfold PLL_AVAILABLE, PLL_IDLE, PLL_REQ_STATUS, PLL_RESET, PLL_SEND_CONFIRM.
   settle. repeat split; reflexivity.
 Qed.
 
-Theorem pb_retransmit_identical : forall v c t0 t1 dir p d rest,
+(* [req]: whether the application asked for a link test (LinkLayerBalanced_sendLinkLayerTestFunction) while the frame
+   was waiting for its confirmation.  With fg the retransmission is the identical frame whatever was requested. *)
+Theorem pb_retransmit_identical : forall v c t0 t1 dir p d rest (req : bool), fg v = true ->
   pb_ps p = PLL_AVAILABLE -> pb_test p = false -> t0 - clamp (pb_lastrx p) t0 <= pb_idle p ->
   0 <= t_ack c -> t0 + t_ack c < t1 -> t1 <= t0 + t_rep c ->
   let '(p1, q1, o1) := pb_run v c t0 dir p (d :: rest) in
-  let '(p2, q2, o2) := pb_run v c t1 dir p1 [] in
-  o2 = o1 /\ pb_nfcb p2 = pb_nfcb p1 /\ pb_nfcb p1 = negb (pb_nfcb p).
+  let '(p2, q2, o2) := pb_run v c t1 dir (if req then pb_with_test p1 true else p1) [] in
+  o2 = o1 /\ pb_nfcb p2 = pb_nfcb p1 /\ pb_nfcb p1 = negb (pb_nfcb p) /\ pb_test p2 = req.
 Proof.
-  intros v c t0 t1 dir p d rest Hs Ht Hi H0 H1 H2.
+  intros v c t0 t1 dir p d rest req Hg Hs Ht Hi H0 H1 H2.
   pose proof (pb_send_new v c t0 dir p d rest Hs Ht Hi) as A. destruct (pb_run v c t0 dir p (d :: rest)) as [[p1 q1] o1].
-  destruct A as (Ao & _ & As & Af & Al & At & Als & Aos & Aot).
-  pose proof (pb_repeat v c t1 dir p1 As At ltac:(lia) ltac:(lia) ltac:(lia)) as B. destruct (pb_run v c t1 dir p1 []) as [[p2 q2] o2].
-  destruct B as (Bo & _ & Bf & _). rewrite Bo, Ao, Af, Al, Aot, negb_involutive. split; [reflexivity | split; [rewrite Bf; rewrite Af; reflexivity | reflexivity]].
+  destruct A as (Ao & _ & As & Af & Al & At & Als & Aos & Aot & Ato). specialize (Ato Hg).
+  set (p1' := if req then pb_with_test p1 true else p1).
+  assert (E : pb_ps p1' = pb_ps p1 /\ pb_nfcb p1' = pb_nfcb p1 /\ pb_last p1' = pb_last p1 /\ pb_lastsend p1' = pb_lastsend p1 /\
+              pb_origsend p1' = pb_origsend p1 /\ pb_other p1' = pb_other p1 /\ pb_tout p1' = pb_tout p1 /\ pb_test p1' = req).
+  { unfold p1'. destruct req; cbn [pb_with_test pb_upd pb_ps pb_nfcb pb_last pb_lastsend pb_origsend pb_other pb_tout pb_test]; repeat split; try reflexivity. exact At. }
+  destruct E as (E1 & E2 & E3 & E4 & E5 & E6 & E7 & E8).
+  assert (Hout : pb_out_is_test v p1' = false) by (unfold pb_out_is_test; rewrite Hg, E7; exact Ato).
+  pose proof (pb_repeat v c t1 dir p1' ltac:(rewrite E1; exact As) Hout ltac:(rewrite E4; lia) ltac:(rewrite E4; lia) ltac:(rewrite E5; lia)) as B.
+  destruct (pb_run v c t1 dir p1' []) as [[p2 q2] o2].
+  destruct B as (Bo & _ & Bf & _ & Bt & _). rewrite Bo, Ao, E2, E3, E6, Af, Al, Aot, negb_involutive.
+  split; [reflexivity | split; [rewrite Bf, E2, Af; reflexivity | split; [reflexivity | rewrite Bt; exact E8]]].
+Qed.
+
+(* the original code: a link test requested while user data is outstanding replaces the retransmission by a test frame that
+   carries the bit of the lost user data -- the secondary accepts it as the new frame, confirms, and the data is gone *)
+Theorem pb_retransmit_identical_refuted : exists v c t0 t1 dir p d,
+  fg v = false /\ pb_ps p = PLL_AVAILABLE /\ pb_test p = false /\ t0 + t_ack c < t1 /\ t1 <= t0 + t_rep c /\
+  let '(p1, q1, o1) := pb_run v c t0 dir p [d] in
+  let '(p2, q2, o2) := pb_run v c t1 dir (pb_with_test p1 true) [] in
+  o1 = fcv_frame c 3 2 dir true d /\ o2 = [OTx (enc_fixed 1 2 2 true dir true true)].
+Proof.
+  exists {| fa := true; fb := true; fc_ := true; fd := true; fe := true; ff := true; fg := false; fh := false; fi := false |},
+         {| alen := 1; single_ack := false; t_ack := 200; t_rep := 1000; t_ls := 5000 |}, 1000, 1300, true,
+         (pb_with_ps (pb_with_lastrx (pb_init 2 5000) 1000) PLL_AVAILABLE), [45; 1; 6; 0; 1; 0; 7; 0].
+  split; [reflexivity|]. split; [reflexivity|]. split; [reflexivity|]. split; [reflexivity|]. split; [discriminate|].
+  vm_compute. split; reflexivity.
 Qed.
 
 (* after the repeat timeout: no further repetition, the link is reported in error (once: the callback
@@ -459,10 +526,10 @@ Theorem pb_first_after_reset_refuted : exists v c now dir p d,
   let p2 := fst (pb_handle v c now dir p1 0 false) in
   snd (pb_run v c now dir p2 [d]) = fcv_frame c 3 (pb_other p) dir false d.
 Proof.
-  exists {| fa := false; fb := false; fc_ := false; fd := false; fe := false; ff := false |},
+  exists {| fa := false; fb := false; fc_ := false; fd := false; fe := false; ff := false; fg := false; fh := false; fi := false |},
          {| alen := 1; single_ack := false; t_ack := 200; t_rep := 1000; t_ls := 5000 |}, 5000, true,
          {| pb_ls := LS_ERROR; pb_ps := PLL_REQ_STATUS; pb_wait := true; pb_lastsend := 5000; pb_origsend := 0; pb_test := false;
-            pb_nfcb := false; pb_other := 2; pb_last := [170]; pb_lastrx := 4000; pb_idle := 100000 |}, [187].
+            pb_nfcb := false; pb_other := 2; pb_last := [170]; pb_lastrx := 4000; pb_idle := 100000; pb_tout := false |}, [187].
   vm_compute. repeat split; reflexivity.
 Qed.
 
@@ -477,25 +544,109 @@ Proof.
   settle. repeat split; reflexivity.
 Qed.
 
+(* the request flag of the link test decides what is repeated in the original code only *)
 Theorem sc_repeat : forall v c now s,
-  sc_ps s = PLL_SEND_CONFIRM -> sc_test s = false -> sc_lastsend s <= now ->
+  sc_ps s = PLL_SEND_CONFIRM -> (fg v = true \/ sc_test s = false) -> sc_lastsend s <= now ->
   sc_lastsend s + t_ack c < now -> now <= sc_origsend s + t_rep c ->
   let '(s', o) := sc_run v c now s in
   o = fcv_frame c 3 (sc_addr s) false (negb (sc_nfcb s)) (sc_msg s) /\ sc_ps s' = PLL_SEND_CONFIRM /\ sc_nfcb s' = sc_nfcb s /\ sc_msg s' = sc_msg s.
 Proof.
-  intros v c now s Hs Ht H1 H2 H3. unfold sc_run. rewrite Hs, Ht, (clamp_le _ _ H1). unfold PLL_AVAILABLE, PLL_IDLE, PLL_REQ_STATUS, PLL_RESET, PLL_SEND_CONFIRM, PLL_TIMEOUT.
+  intros v c now s Hs Ht H1 H2 H3. unfold sc_run. rewrite Hs, (clamp_le _ _ H1). unfold PLL_AVAILABLE, PLL_IDLE, PLL_REQ_STATUS, PLL_RESET, PLL_SEND_CONFIRM, PLL_TIMEOUT.
+  assert (E : negb (fg v) && sc_test s = false) by (destruct Ht as [-> | ->]; [reflexivity | apply andb_false_r]). rewrite E.
   settle. cbn [sc_ps sc_nfcb sc_msg sc_with_lastsend sc_mk]. repeat split; try reflexivity; exact Hs.
 Qed.
 
-Theorem sc_retransmit_identical : forall v c t0 t1 s,
+(* [req]: LinkLayerPrimaryUnbalanced_sendLinkLayerTestFunction called while the frame waits for its confirmation *)
+Theorem sc_retransmit_identical : forall v c t0 t1 s (req : bool), fg v = true ->
   sc_ps s = PLL_AVAILABLE -> sc_test s = false -> sc_has s = true -> 0 <= t_ack c -> t0 + t_ack c < t1 -> t1 <= t0 + t_rep c ->
-  let '(s1, o1) := sc_run v c t0 s in let '(s2, o2) := sc_run v c t1 s1 in o2 = o1.
+  let '(s1, o1) := sc_run v c t0 s in let '(s2, o2) := sc_run v c t1 (if req then sc_with_test s1 true else s1) in o2 = o1.
 Proof.
-  intros v c t0 t1 s Hs Ht Hh H0 H1 H2.
+  intros v c t0 t1 s req Hg Hs Ht Hh H0 H1 H2.
   pose proof (sc_send_new v c t0 s Hs Ht Hh) as A. destruct (sc_run v c t0 s) as [s1 o1].
   destruct A as (Ao & As & Af & Am & At & Als & Aos & Aa).
-  pose proof (sc_repeat v c t1 s1 As At ltac:(lia) ltac:(lia) ltac:(lia)) as B. destruct (sc_run v c t1 s1) as [s2 o2].
-  destruct B as (Bo & _). rewrite Bo, Ao, Af, Am, Aa, negb_involutive. reflexivity.
+  set (s1' := if req then sc_with_test s1 true else s1).
+  assert (E : sc_ps s1' = sc_ps s1 /\ sc_nfcb s1' = sc_nfcb s1 /\ sc_msg s1' = sc_msg s1 /\ sc_lastsend s1' = sc_lastsend s1 /\
+              sc_origsend s1' = sc_origsend s1 /\ sc_addr s1' = sc_addr s1).
+  { unfold s1'. destruct req; cbn [sc_with_test sc_mk sc_ps sc_nfcb sc_msg sc_lastsend sc_origsend sc_addr]; repeat split; reflexivity. }
+  destruct E as (E1 & E2 & E3 & E4 & E5 & E6).
+  pose proof (sc_repeat v c t1 s1' ltac:(rewrite E1; exact As) (or_introl Hg) ltac:(rewrite E4; lia) ltac:(rewrite E4; lia) ltac:(rewrite E5; lia)) as B.
+  destruct (sc_run v c t1 s1') as [s2 o2].
+  destruct B as (Bo & _). rewrite Bo, Ao, E2, E3, E6, Af, Am, Aa, negb_involutive. reflexivity.
+Qed.
+
+(* the confirmation of the user data frame: with fg it takes the message (nothing is sent twice as a new frame) and leaves a
+   link test requested meanwhile pending; the original code gives the confirmation to the test request and keeps the message *)
+Theorem sc_confirm_takes_message : forall v c now s acd address msg uds udl, fg v = true -> sc_ps s = PLL_SEND_CONFIRM ->
+  let s' := fst (sc_handle v c now s 0 acd false address msg uds udl) in
+  sc_has s' = false /\ sc_ps s' = PLL_AVAILABLE /\ sc_test s' = sc_test s /\ sc_nfcb s' = sc_nfcb s.
+Proof.
+  intros v c now s acd address msg uds udl Hg Hs. cbv zeta. unfold sc_handle, sc_set_state. rewrite Hs, Hg.
+  unfold PLL_AVAILABLE, PLL_IDLE, PLL_REQ_STATUS, PLL_RESET, PLL_SEND_CONFIRM, PLL_BUSY, PLL_REQUEST_RESPOND, PLL_TIMEOUT.
+  cbn [Z.eqb Pos.eqb orb andb negb]. cbv beta iota.
+  destruct acd; cbn [sc_with_r sc_with_msg sc_mk sc_ls]; destruct (_ =? LS_AVAILABLE);
+    cbn [fst sc_with_r sc_with_wait sc_with_ps sc_with_msg sc_mk sc_has sc_ps sc_test sc_nfcb]; repeat split; reflexivity.
+Qed.
+
+Theorem sc_confirm_takes_message_refuted : exists v c now s,
+  fg v = false /\ sc_ps s = PLL_SEND_CONFIRM /\ sc_has s = true /\
+  let s1 := fst (sc_handle v c now s 0 false false 1 [] 0 0) in           (* the confirmation arrives *)
+  let '(s2, o2) := sc_run v c now s1 in
+  sc_has s1 = true /\ o2 = fcv_frame c 3 1 false (sc_nfcb s) (sc_msg s).  (* the same message again, as a NEW frame *)
+Proof.
+  exists {| fa := true; fb := true; fc_ := true; fd := true; fe := true; ff := true; fg := false; fh := false; fi := false |},
+         {| alen := 1; single_ack := false; t_ack := 200; t_rep := 1000; t_ls := 5000 |}, 1100,
+         (sc_mk (sc_init 1) LS_AVAILABLE PLL_SEND_CONFIRM true [45; 1; 6; 0; 1; 0; 7; 0] 1000 1000 false false true true false 11).
+  split; [reflexivity|]. split; [reflexivity|]. split; [reflexivity|]. vm_compute. split; reflexivity.
+Qed.
+
+(* a link test request is served by exactly one test frame (fg); in the original code the request is never cleared *)
+Theorem sc_test_request_served : forall v c now s, fg v = true -> sc_ps s = PLL_AVAILABLE -> sc_test s = true ->
+  let '(s', o) := sc_run v c now s in
+  o = [OTx (enc_fixed (alen c) 2 (sc_addr s) true false (sc_nfcb s) true)] /\ sc_test s' = false /\ sc_ps s' = PLL_REQUEST_RESPOND /\
+  sc_has s' = sc_has s /\ sc_msg s' = sc_msg s /\ sc_nfcb s' = negb (sc_nfcb s) /\ sc_lastfc s' = 2.
+Proof.
+  intros v c now s Hg Hs Ht. unfold sc_run. rewrite Hs, Ht, Hg. unfold PLL_AVAILABLE, PLL_IDLE, PLL_REQ_STATUS, PLL_RESET, PLL_SEND_CONFIRM, PLL_TIMEOUT.
+  settle. repeat split; reflexivity.
+Qed.
+
+Theorem sc_test_request_served_refuted : exists v c now s,
+  fg v = false /\ sc_ps s = PLL_AVAILABLE /\ sc_test s = true /\ sc_has s = true /\
+  let '(s1, o1) := sc_run v c now s in                                      (* test frame *)
+  let s2 := fst (sc_handle v c now s1 0 false false 1 [] 0 0) in            (* answered *)
+  let '(s3, o3) := sc_run v c now s2 in                                     (* ... and sent again instead of the message *)
+  sc_test s2 = true /\ o3 = [OTx (enc_fixed 1 2 1 true false (negb (sc_nfcb s)) true)].
+Proof.
+  exists {| fa := true; fb := true; fc_ := true; fd := true; fe := true; ff := true; fg := false; fh := false; fi := false |},
+         {| alen := 1; single_ack := false; t_ack := 200; t_rep := 1000; t_ls := 5000 |}, 1100,
+         (sc_mk (sc_init 1) LS_AVAILABLE PLL_AVAILABLE true [45; 1; 6; 0; 1; 0; 7; 0] 1000 1000 false false false true true 11).
+  split; [reflexivity|]. split; [reflexivity|]. split; [reflexivity|]. split; [reflexivity|]. vm_compute. split; reflexivity.
+Qed.
+
+(* fh: "service not implemented / not functioning" answers a REQUEST/RESPOND service (e.g. the test frame): the service is over,
+   the link stays available -- no repetition, no link error *)
+Theorem sc_negative_answer_ends_request : forall v c now s fc acd address msg uds udl, fh v = true -> fc = 14 \/ fc = 15 ->
+  sc_ps s = PLL_REQUEST_RESPOND ->
+  let '(s', o) := sc_handle v c now s fc acd false address msg uds udl in
+  sc_ps s' = PLL_AVAILABLE /\ sc_ls s' = LS_AVAILABLE /\ sc_nfcb s' = sc_nfcb s /\ sc_has s' = sc_has s /\ sc_test s' = sc_test s.
+Proof.
+  intros v c now s fc acd address msg uds udl Hh Hf Hs. unfold sc_handle, sc_set_state. rewrite Hs, Hh.
+  unfold PLL_AVAILABLE, PLL_IDLE, PLL_REQ_STATUS, PLL_RESET, PLL_SEND_CONFIRM, PLL_BUSY, PLL_REQUEST_RESPOND, PLL_TIMEOUT.
+  destruct Hf as [-> | ->]; cbn [Z.eqb Pos.eqb orb andb negb]; cbv beta iota;
+  destruct acd; cbn [sc_with_r sc_mk sc_ls]; destruct (_ =? LS_AVAILABLE) eqn:L;
+    cbn [fst snd sc_with_r sc_with_wait sc_with_ps sc_mk sc_has sc_ps sc_test sc_nfcb sc_ls]; repeat split; try reflexivity;
+    apply Z.eqb_eq in L; exact L.
+Qed.
+
+Theorem sc_negative_answer_refuted : exists v c s t1,
+  fh v = false /\ sc_ps s = PLL_REQUEST_RESPOND /\
+  let s1 := fst (sc_handle v c 1100 s 15 false false 1 [] 0 0) in
+  let '(s2, o2) := sc_run v c t1 s1 in
+  sc_ps s1 = PLL_REQUEST_RESPOND /\ o2 = [OTx (enc_fixed 1 2 1 true false true true)].     (* the answered request is repeated *)
+Proof.
+  exists {| fa := true; fb := true; fc_ := true; fd := true; fe := true; ff := true; fg := true; fh := false; fi := false |},
+         {| alen := 1; single_ack := false; t_ack := 200; t_rep := 1000; t_ls := 5000 |},
+         (sc_mk (sc_init 1) LS_AVAILABLE PLL_REQUEST_RESPOND false [] 1000 1000 false false true false false 2), 1300.
+  split; [reflexivity|]. split; [reflexivity|]. vm_compute. split; reflexivity.
 Qed.
 
 (* a request for class 1 / class 2 data: toggles; its repetition is the same request (repaired code) *)
@@ -532,7 +683,7 @@ Theorem sc_request_repeat_refuted : exists v c t0 t1 s,
   let '(s1, o1) := sc_run v c t0 s in let '(s2, o2) := sc_run v c t1 s1 in
   o1 = [OTx (enc_fixed 1 10 1 true false true true)] /\ o2 = [OTx (enc_fixed 1 11 1 true false true true)].
 Proof.
-  exists {| fa := false; fb := false; fc_ := false; fd := false; fe := false; ff := false |},
+  exists {| fa := false; fb := false; fc_ := false; fd := false; fe := false; ff := false; fg := false; fh := false; fi := false |},
          {| alen := 1; single_ack := false; t_ack := 200; t_rep := 1000; t_ls := 5000 |}, 1000, 1250,
          (sc_mk (sc_init 1) LS_AVAILABLE PLL_AVAILABLE false [] 0 0 true false false false true 11).
   split; [reflexivity|]. split; [reflexivity|]. split; [reflexivity|]. split; [reflexivity|]. split; [discriminate|].
@@ -556,7 +707,7 @@ Theorem sc_reset_fcb_refuted : exists v c now s,
   fa v = false /\ sc_ps s = PLL_REQ_STATUS /\ sc_nfcb (fst (sc_handle v c now s 11 false false 1 [] 0 0)) = false /\
   In (OTx (reset_frame c 1 false)) (snd (sc_handle v c now s 11 false false 1 [] 0 0)).
 Proof.
-  exists {| fa := false; fb := false; fc_ := false; fd := false; fe := false; ff := false |},
+  exists {| fa := false; fb := false; fc_ := false; fd := false; fe := false; ff := false; fg := false; fh := false; fi := false |},
          {| alen := 1; single_ack := false; t_ack := 200; t_rep := 1000; t_ls := 5000 |}, 1000,
          (sc_mk (sc_init 1) LS_ERROR PLL_REQ_STATUS false [] 1000 0 false false true false false 11).
   vm_compute. repeat split; try reflexivity. left. reflexivity.
